@@ -36,6 +36,8 @@ func runC15(w *World, r *Report) {
 	hrFreshDecodeTarget(w, r, "R6")
 	hrResponseClosedOnlyWhenPresent(w, r, "R6")
 	hrFlushDoesNotRedeliver(w, r, "R6")
+	hrTimestampParsedAsUTC(w, r, "R5")
+	hrHistogramKeptWhole(w, r, "R6")
 	hrFreshMapPerIteration(w, r, "R6", pkgDisc, "ConvertToPersisted")
 	hrTrimBothEnds(w, r, "R3")
 	hrPersistedKeysAllRead(w, r, "R6")
